@@ -39,6 +39,11 @@ pub struct SimPlan {
     pub clock: Vec<(u64, i64, i64)>,
     pub lib_pass: bool,
     pub all_formats: bool,
+    /// execute the (single) thread's jobs one after the other in this
+    /// process with the repository's real `FileServerReal` on a scratch
+    /// tmpfs tree instead of the simulated disk
+    #[serde(default)]
+    pub realfs: bool,
 }
 
 pub fn keys_from_hex(h: &str) -> [u8; 16] {
@@ -70,6 +75,7 @@ impl SimPlan {
             clock: vec![],
             lib_pass,
             all_formats,
+            realfs: false,
         }
     }
 }
@@ -122,6 +128,9 @@ impl PlanResult {
 }
 
 pub fn run_plan(plan: &SimPlan) -> PlanResult {
+    if plan.realfs {
+        return crate::realfs::run_plan_realfs(plan);
+    }
     let n = plan.threads.len();
     seams::set_sim_time(1_700_000_000, 0);
     let sched = Arc::new(Sched::new(n, plan.schedule.clone(), plan.sched_seed.map(Rng::new), plan.switch_16, plan.clock.clone()));
